@@ -35,7 +35,7 @@ func init() {
 	core.RegisterMeta("C13", core.Meta{
 		Rule: "templates (status × reason 0–10 × serial 1…2^159 × times with sub-second parts and zones, zero nextUpdate × issuer hash {0,SHA1,SHA256,SHA384,SHA512} × extensions × " +
 			"signature algorithm {0, each valid} × responder {issuer, issuer embedded, delegated embedded, delegated not embedded, delegated certified by another CA, impostors whose certificate carries the issuer's or a trusted responder's exact subject but another key — self-signed or certified by another CA}) × issuer keys " +
-			"{ECDSA P-256/384/521, RSA-2048} through CreateResponse/ParseResponse; CreateRequest/ParseRequest with every hash; multi-response encodings (2–4 singles, duplicate serials) from the " +
+			"{ECDSA P-256/384/521, RSA-2048} × issuer subjectKeyIdentifier styles {absent, SHA-1 of key bits, RFC 7093 truncated SHA-256, random 20 bytes, SHA-1 of another CA key, 4 bytes, 32 bytes} through CreateResponse/ParseResponse; CreateRequest/ParseRequest with every hash; multi-response encodings (2–4 singles, duplicate serials) from the " +
 			"harness's DER writer through ParseResponseForCert; every byte of short signed responses flipped (all 8 bits for the full seeds) and structural mutations, judged by an independent " +
 			"verifier (own TLV reader + crypto/ecdsa, crypto/rsa) with golang.org/x/crypto/ocsp as second opinion; non-trivial = the untampered message was accepted and every listed field " +
 			"was compared / the tampered message was decided by zcrypto; distinct = hash of the template description or of (seed response, mutation); enumerated flips are distinct by construction",
@@ -75,13 +75,42 @@ type c13env struct {
 	other   *party
 }
 
+// skiStyles: how an issuer certificate's subjectKeyIdentifier relates to its key. Only "sha1-of-key-bits" equals the
+// OCSP issuerKeyHash for SHA-1; nothing in OCSP may take the extension's word for it.
+var skiStyles = []string{"absent", "sha1-of-key-bits", "rfc7093-sha256-truncated-20", "random-20-bytes", "sha1-of-another-ca-key", "4-bytes", "sha256-32-bytes"}
+
+func skiFor(style string, bits, otherBits, random []byte) []byte {
+	switch style {
+	case "sha1-of-key-bits":
+		return digestOf(crypto.SHA1, bits)
+	case "rfc7093-sha256-truncated-20":
+		return digestOf(crypto.SHA256, bits)[:20]
+	case "random-20-bytes":
+		return random[:20]
+	case "sha1-of-another-ca-key":
+		return digestOf(crypto.SHA1, otherBits)
+	case "4-bytes":
+		return random[:4]
+	case "sha256-32-bytes":
+		return digestOf(crypto.SHA256, bits)
+	}
+	return nil
+}
+
 func (e *c13env) mkParty(label string, name *dn, ecIdx int, rsaKey *keys.RSAKey, signer *party, spec certSpec) (*party, error) {
-	p := &party{label: label, name: name}
+	return e.mkPartySKI(label, name, ecIdx, rsaKey, signer, spec, "absent", nil)
+}
+
+func (e *c13env) mkPartySKI(label string, name *dn, ecIdx int, rsaKey *keys.RSAKey, signer *party, spec certSpec, skiStyle string, random []byte) (*party, error) {
+	p := &party{label: label, name: name, ski: skiStyle}
 	if rsaKey != nil {
 		p.rsa = rsaKey.Std()
 		p.zrsa = zrsaKey(*rsaKey)
 	} else {
 		p.ec = keys.Get().EC[ecIdx].Priv
+	}
+	if skiStyle != "absent" {
+		spec.ski = skiFor(skiStyle, keyBits(p), keyBits(e.other), random)
 	}
 	spec.subject = name.der
 	spec.spki = spkiOf(p.pub())
@@ -124,7 +153,9 @@ func newC13env(c *core.Ctx) (*c13env, error) {
 			rk = &k
 			root = e.issuers[0].party // the RSA issuer is an intermediate under the first root
 		}
-		p, err := e.mkParty("issuer-"+d.label, randomDN(r, "Issuer "+d.label+" "+tag), d.ec, rk, root, certSpec{serial: big.NewInt(int64(10 + i)), ca: true})
+		// every shard gives its five issuers five consecutive styles; over the shards each issuer kind meets each style
+		style := skiStyles[(i+c.Shard)%len(skiStyles)]
+		p, err := e.mkPartySKI("issuer-"+d.label, randomDN(r, "Issuer "+d.label+" "+tag), d.ec, rk, root, certSpec{serial: big.NewInt(int64(10 + i)), ca: true}, style, randBytes(r, 20))
 		if err != nil {
 			return nil, err
 		}
@@ -446,6 +477,7 @@ func (e *c13env) roundTrip(caseID string) {
 	}
 	c.Count("created_"+modeNames[mode], 1)
 	c.Count("created_with_"+is.label, 1)
+	c.Count("created_issuer_ski_"+is.ski, 1)
 	var pNil, pIss *zocsp.Response
 	var eNil, eIss error
 	if pi := core.Guard(func() {
@@ -615,7 +647,8 @@ func (e *c13env) request(caseID string) {
 			c.Count("xcrypto_request_agrees", 1)
 		}
 		c.Count(fmt.Sprintf("request_hash_%d", want), 1)
-		c.Nontrivial("req", is.label, leaf.SerialNumber.String(), int(want), opts == nil)
+		c.Count("request_issuer_ski_"+is.ski, 1)
+		c.Nontrivial("req", is.label, is.ski, leaf.SerialNumber.String(), int(want), opts == nil)
 	}
 }
 
